@@ -27,7 +27,7 @@ func init() {
 				Rule: "case = history of Add/Pop/Remove/Set/Reorder/Clear/NewWithData with an update callback installed (distinct elements = unique tags, keys with many ties so that equal-priority elements meet), removals chosen both by raw offset and by the reported position of a chosen held element, followed by a drain with positions re-checked after every Pop; " +
 					"plus Set of every length 0..64 in ascending/descending/constant order (placement reports without any swap) and the LRU store's own usage pattern driven through cache.Cache with the key->offset index cross-checked against the heap by the cache hook after every call. " +
 					"After EVERY op: Peek(last reported position) == element for every tracked held element; Add's return == last reported position. distinct = hash of the op list; non-trivial = at least one Remove through a reported position at an interior offset",
-				Required:     []string{"histories", "position_checks", "removes_by_reported_position", "interior_removes", "reorders", "set_placement_sweeps", "lru_consumer_steps"},
+				Required:     []string{"histories", "position_checks", "removes_by_reported_position", "interior_removes", "reorders", "set_placement_sweeps", "lru_consumer_steps", "large_queue_histories"},
 				Assumptions:  []string{"reports about elements that have already left the queue are ignored (the statement is about held elements)", "elements placed by NewWithData are not tracked (they did not enter through Add or Set)"},
 				CoverPkgs:    []string{"github.com/creachadair/mds/heapq", "github.com/creachadair/mds/cache"},
 				CoverAnchors: []string{"heapq/heapq.go:swap", "heapq/heapq.go:Add", "heapq/heapq.go:Set", "heapq/heapq.go:pop", "heapq/heapq.go:pushUp", "heapq/heapq.go:pushDown", "heapq/heapq.go:Update", "heapq/heapq.go:Remove", "heapq/heapq.go:Reorder", "cache/lru.go"},
@@ -113,6 +113,32 @@ func runC06(c *fw.Ctx) {
 		}
 	}
 	idx += n
+
+	// large queues with the callback installed (size-dependent paths)
+	nl := c.Pick(3, 24)
+	for k := 0; k < nl; k++ {
+		if !c.Begin(idx + k) {
+			continue
+		}
+		r := c.Rng()
+		size := []int{1023, 1024, 1025, 1500, 2047, 2048, 2049, 3001, 4095, 4096, 4097}[(k+c.Block)%11]
+		ops := heapGenLarge(r, size, []int{4, 1000, 1 << 30}[r.IntN(3)], true)
+		lo := opt
+		lo.light = true
+		var div *heapDiv
+		var st heapStats
+		ok, pv, stack := fw.Try(func() { div, st = heapRun(c, ops, lo) })
+		if !ok {
+			c.FailKind("panic", map[string]any{"large_queue": size}, "panic: %v\n%s", pv, stack)
+		} else if div != nil {
+			c.Fail(map[string]any{"large_queue_of": size, "ops_after_bulk_load": hopStrings(ops[max(0, len(ops)-900):])}, "at op %d: %s", div.Step, div.Detail)
+		}
+		c.Add("large_queue_histories", 1)
+		c.Add("position_checks", int64(st.posChecks))
+		c.Add("removes_by_reported_position", int64(st.removeByPos))
+		c.Max("max:queue_len", int64(st.maxLen))
+	}
+	idx += nl
 
 	// The consumer: cache's LRU store keeps key -> heap offset only through
 	// the callback. Drive it sequentially; the hook cross-checks index and heap.
